@@ -242,9 +242,20 @@ func runGCProg(p *Plan, tape *simrt.Tape, opt RunOpt) *RunOut {
 				if mode == 1 {
 					// a low-use target is also done once it is no longer low-use:
 					// truncating its dead tail can leave a file that is all live
-					// (nothing left to reclaim), and the premise of the clause is gone
-					if l, fr, _, ok := primaryFileStats(data); ok && l > 0 && 100*fr < int64(thr)*(l+fr) {
-						continue
+					// (nothing left to reclaim), and the premise of the clause is
+					// gone. Liveness is what the index refers to now, not the
+					// deleted marks (GC may not have applied the freelist yet).
+					if l, fr, _, ok := primaryFileStats(data); ok {
+						total := l + fr
+						var live int64
+						for _, b := range d.allLocs() {
+							if fileOf(b) == f {
+								live += int64(b.Size)
+							}
+						}
+						if live > 0 && 100*(total-live) < int64(thr)*total {
+							continue
+						}
 					}
 				}
 				left = append(left, f)
@@ -252,9 +263,9 @@ func runGCProg(p *Plan, tape *simrt.Tape, opt RunOpt) *RunOut {
 			sort.Slice(left, func(i, j int) bool { return left[i] < left[j] })
 			return left
 		}
-		B := 4 + moved
+		B := 10 + 4*moved
 		if mode == 1 {
-			B = 6 + 3*moved
+			B = 12 + 6*moved
 		}
 		if n := p.x("interrupt", 0); n > 0 {
 			B *= 3
